@@ -395,6 +395,11 @@ func runHistory(tp *simrt.Tape, task int, nops int, fail func(class, msg string)
 			h.obj.Recycle()
 			h.alive = false
 			desc = "Recycle(" + h.name + ")"
+			if tp.Choose(4) == 3 {
+				// a second Recycle of the same object gives nothing more back to the pools
+				h.obj.Recycle()
+				desc += " twice"
+			}
 		case 10: // pool churn by unrelated users
 			for k := 0; k < 1+tp.Choose(3); k++ {
 				b := obiseq.GetSlice(1 + tp.Choose(400))
